@@ -3,8 +3,7 @@ package main
 // C29: Redis gateway commands follow Redis semantics (single client).
 
 import (
-	"fmt"
-	"math"
+	"sort"
 	"strconv"
 	"strings"
 	"testing"
@@ -62,7 +61,7 @@ func vsGenValue(r *sim.Rand) []byte {
 	case x < 86:
 		return []byte([]string{"", " ", "\r\n", "a\r\nb", "\x00", "\x00\x01\xfe\xff", "+OK\r\n", "\xc2\xa0"}[r.Intn(8)])
 	case x < 96:
-		return vsRepeat([]string{"x", "ab", "0"}[r.Intn(3)], r.Pick(63, 64, 1023, 1024, 1025, 2048, 4096, 4097))
+		return vsRepeat([]string{"x", "ab", "z9"}[r.Intn(3)], r.Pick(63, 64, 1023, 1024, 1025, 2048, 4096, 4097))
 	default:
 		return vsRepeat("big", r.Pick(5000, 9000, 20000))
 	}
@@ -347,13 +346,20 @@ type vsC29 struct {
 	conn  *vsConn
 	batch []vsPending
 	// universe of keys ever named (for the final state comparison)
-	seen    map[string]bool
+	seen map[string]bool
+	// lastIO is the fake time of the last byte exchanged on conn.
+	lastIO  time.Time
 	stopped bool
 }
 
+// The gateway closes a connection that stays silent for five minutes (Redis
+// itself never does by default; connection housekeeping is not part of C29).
+// The client therefore hangs up itself before it would be idle that long.
+const vsIdleLimit = 4 * time.Minute
+
 func vsNowMicro() int64 { return time.Now().UnixMicro() }
 
-// recv waits for the next reply; Kind 0 = nothing within 10 fake minutes.
+// vsRecv waits for the next reply; Kind 0 = nothing within 10 fake minutes.
 func vsRecv(vc *vsConn) vsReply {
 	tm := time.NewTimer(10 * time.Minute)
 	defer tm.Stop()
@@ -371,6 +377,7 @@ func (x *vsC29) ensureConn() {
 	}
 	x.conn = vsNewConn()
 	go x.conn.serve(x.w.srv)
+	x.lastIO = time.Now()
 	x.res.Faults["connect"]++
 }
 
@@ -398,6 +405,18 @@ func (x *vsC29) dropConn(step int, expectClosed bool) {
 	}
 }
 
+// sleep advances the fake clock (hanging up first if the connection would sit idle too long).
+func (x *vsC29) sleep(d time.Duration, what string) {
+	if x.conn != nil && time.Since(x.lastIO)+d >= vsIdleLimit {
+		x.dropConn(-1, false)
+		x.res.Faults["idle_hangup"]++
+	}
+	time.Sleep(d)
+	synctest.Wait()
+	x.res.SimTime += d
+	x.res.Faults[what]++
+}
+
 // settle advances the fake clock until none of keys is within a second of its deadline.
 func (x *vsC29) settle(keys []string) {
 	for i := 0; i < 16; i++ {
@@ -407,13 +426,16 @@ func (x *vsC29) settle(keys []string) {
 			return
 		}
 		d := time.Duration(until-now+1000) * time.Microsecond
-		time.Sleep(d)
-		synctest.Wait()
-		x.res.SimTime += d
-		x.res.Faults["clock_settle"]++
+		x.sleep(d, "clock_settle")
 		x.res.Trace.Add("settle +%dus", d.Microseconds())
 	}
 }
+
+const (
+	vsOK       = iota // reply as demanded
+	vsDesync          // mismatch or unasserted write: the keys of the command must be resynchronised
+	vsTerminal        // connection gone or run stopped
+)
 
 func (x *vsC29) flush() {
 	if len(x.batch) == 0 || x.stopped {
@@ -422,6 +444,9 @@ func (x *vsC29) flush() {
 	}
 	batch := x.batch
 	x.batch = nil
+	if x.conn != nil && time.Since(x.lastIO) >= vsIdleLimit {
+		x.dropConn(batch[0].step, false)
+	}
 	x.ensureConn()
 	var wire []byte
 	for _, p := range batch {
@@ -434,15 +459,33 @@ func (x *vsC29) flush() {
 	if _, err := x.conn.cli.Write(wire); err != nil {
 		x.res.Violate(batch[0].step, "connection_lost", nil, "write of %d bytes failed: %v", len(wire), err)
 		x.dropConn(batch[0].step, false)
+		x.stopped = true
 		return
 	}
+	var dirty []string
+	desynced := false
 	for _, p := range batch {
 		got := vsRecv(x.conn)
+		x.lastIO = time.Now()
 		t1 := vsNowMicro() + 1
-		x.check(p, got, t0, t1)
-		if x.conn == nil || x.stopped {
+		if desynced {
+			// A command pipelined behind a mismatch ran against a state the model
+			// no longer knows: not compared, its keys are resynchronised too.
+			x.res.Trace.Add("%d %s -> %s (not compared)", p.step, vsShort(vsPackArgs(p.args)), got)
+			x.res.Probes["not_compared_after_mismatch"]++
+			dirty = append(dirty, vsCmdKeys(p.args)...)
+			continue
+		}
+		switch x.check(p, got, t0, t1) {
+		case vsDesync:
+			desynced = true
+			dirty = append(dirty, vsCmdKeys(p.args)...)
+		case vsTerminal:
 			return
 		}
+	}
+	if desynced {
+		x.resync(batch[len(batch)-1].step, dirty)
 	}
 }
 
@@ -456,6 +499,14 @@ func vsCmdName(args [][]byte) string {
 		return n
 	}
 	return "OTHER"
+}
+
+func vsReadOnly(name string) bool {
+	switch name {
+	case "GET", "MGET", "EXISTS", "PING", "ECHO", "OTHER":
+		return true
+	}
+	return false
 }
 
 // vsErrCause turns the free text of an error reply into a category.
@@ -488,7 +539,7 @@ func vsErrCause(text string) string {
 	return "other"
 }
 
-func (x *vsC29) check(p vsPending, got vsReply, t0, t1 int64) {
+func (x *vsC29) check(p vsPending, got vsReply, t0, t1 int64) int {
 	res := x.res
 	exp := x.model.apply(p.args, t0, t1)
 	res.Trace.Add("%d %s -> %s @%dms", p.step, vsShort(vsPackArgs(p.args)), got, t0/1000-946684800000)
@@ -498,14 +549,18 @@ func (x *vsC29) check(p vsPending, got vsReply, t0, t1 int64) {
 		// Cannot happen unless a command takes more than vsSlack of fake time.
 		res.Probes["uncertain_abort"]++
 		x.stopped = true
-		return
+		return vsTerminal
 	}
 	if exp.skip {
 		res.Probes["not_asserted"]++
 		if exp.closes {
 			x.dropConn(p.step, false)
+			return vsTerminal
 		}
-		return
+		if vsReadOnly(name) {
+			return vsOK
+		}
+		return vsDesync
 	}
 	res.Checks++
 	ok := got.Kind == exp.rep.Kind
@@ -519,13 +574,17 @@ func (x *vsC29) check(p vsPending, got vsReply, t0, t1 int64) {
 		}
 	}
 	if ok {
-		if got.Kind == '_' && (name == "GET") {
+		switch {
+		case got.Kind == '_' && name == "GET":
 			res.Probes["get_miss"]++
+		case got.Kind == '_' && name == "SET":
+			res.Probes["set_condition_failed"]++
 		}
 		if exp.closes {
 			x.dropConn(p.step, true)
+			return vsTerminal
 		}
-		return
+		return vsOK
 	}
 	sig := map[string]string{"cmd": name, "expected": vsKindName(exp.rep.Kind), "got": vsKindName(got.Kind)}
 	cause := "value"
@@ -543,6 +602,12 @@ func (x *vsC29) check(p vsPending, got vsReply, t0, t1 int64) {
 	case got.Kind == exp.rep.Kind:
 		cause = "payload"
 	}
+	if name == "PING" && exp.rep.Kind == '$' && exp.rep.Str == "" && got.Kind == '+' {
+		cause = "empty_argument"
+	}
+	if vsOnlyEmptyAsNil(exp.rep, got) {
+		cause = "empty_value_as_nil"
+	}
 	sig["cause"] = cause
 	want := exp.rep.String()
 	if exp.rep.Kind == '-' {
@@ -556,25 +621,43 @@ func (x *vsC29) check(p vsPending, got vsReply, t0, t1 int64) {
 	if got.Kind == 0 || got.Kind == 'X' || got.Kind == '?' {
 		x.dropConn(p.step, false)
 		x.stopped = true
-		return
+		return vsTerminal
 	}
 	if exp.closes {
 		x.dropConn(p.step, false)
-		return
+		return vsTerminal
 	}
-	x.resync(p)
+	return vsDesync
 }
 
-// resync brings the keys of a mismatched command into a known state (absent)
-// so that one defect does not echo through the rest of the run.
-func (x *vsC29) resync(p vsPending) {
-	keys := vsCmdKeys(p.args)
-	if len(keys) == 0 {
-		return
+// vsOnlyEmptyAsNil reports whether got differs from want only in that empty
+// bulk strings came back as nil.
+func vsOnlyEmptyAsNil(want, got vsReply) bool {
+	if want.Kind == '$' && want.Str == "" && got.Kind == '_' {
+		return true
 	}
+	if want.Kind != '*' || got.Kind != '*' || len(want.Arr) != len(got.Arr) {
+		return false
+	}
+	diff := 0
+	for i := range want.Arr {
+		if want.Arr[i].equal(got.Arr[i]) {
+			continue
+		}
+		if !(want.Arr[i].Kind == '$' && want.Arr[i].Str == "" && got.Arr[i].Kind == '_') {
+			return false
+		}
+		diff++
+	}
+	return diff > 0
+}
+
+// resync brings keys into a known state (absent) after a mismatch, so that one
+// defect does not echo through the rest of the run.
+func (x *vsC29) resync(step int, keys []string) {
 	uniq := map[string]bool{}
 	for _, k := range keys {
-		if uniq[k] {
+		if uniq[k] || x.stopped {
 			continue
 		}
 		uniq[k] = true
@@ -583,11 +666,11 @@ func (x *vsC29) resync(p vsPending) {
 			return
 		}
 		rep := vsRecv(x.conn)
-		x.res.Trace.Add("%d resync DEL %q -> %s", p.step, k, rep)
+		x.res.Trace.Add("%d resync DEL %q -> %s", step, k, rep)
 		delete(x.model.m, k)
 		if rep.Kind != ':' {
-			// The store refuses writes to this key (e.g. throttled): stop here, the
-			// model cannot be brought back in line.
+			// The store refuses writes to this key (e.g. throttled): the model
+			// cannot be brought back in line, the run ends here.
 			x.res.Probes["resync_failed"]++
 			x.stopped = true
 			return
@@ -622,11 +705,7 @@ func vsExecC29(t *testing.T, c *sim.Case) *sim.Result {
 				if ms > 86_400_000 {
 					ms = 86_400_000
 				}
-				d := time.Duration(ms) * time.Millisecond
-				time.Sleep(d)
-				synctest.Wait()
-				res.SimTime += d
-				res.Faults["clock_advance"]++
+				x.sleep(time.Duration(ms)*time.Millisecond, "clock_advance")
 				res.Trace.Add("%d adv %dms", i, ms)
 			case "cmd":
 				args := vsUnpackArgs(op.S)
@@ -663,16 +742,17 @@ func vsExecC29(t *testing.T, c *sim.Case) *sim.Result {
 			}
 		}
 		x.flush()
-		// Resulting data: every key ever named, compared once more at the end.
+		// Resulting data: every key ever named is read once more at the end.
 		if !x.stopped {
 			keys := make([]string, 0, len(x.seen))
 			for k := range x.seen {
 				keys = append(keys, k)
 			}
-			sortStrings(keys)
+			sort.Strings(keys)
 			for _, k := range keys {
 				x.settle([]string{k})
-				x.batch = append(x.batch, vsPending{step: len(c.Ops), args: [][]byte{[]byte("GET"), []byte(k)}, wire: vsEncode([][]byte{[]byte("GET"), []byte(k)})})
+				get := [][]byte{[]byte("GET"), []byte(k)}
+				x.batch = append(x.batch, vsPending{step: len(c.Ops), args: get, wire: vsEncode(get)})
 				x.flush()
 				if x.stopped {
 					break
@@ -684,14 +764,3 @@ func vsExecC29(t *testing.T, c *sim.Case) *sim.Result {
 	})
 	return res
 }
-
-func sortStrings(s []string) {
-	for i := 1; i < len(s); i++ {
-		for j := i; j > 0 && s[j] < s[j-1]; j-- {
-			s[j], s[j-1] = s[j-1], s[j]
-		}
-	}
-}
-
-var _ = fmt.Sprintf
-var _ = math.MaxInt64
